@@ -18,6 +18,7 @@ import (
 	"strconv"
 	"strings"
 	"sync"
+	"sync/atomic"
 	"time"
 )
 
@@ -59,13 +60,19 @@ type Local struct {
 	viols                                          map[string]*Violation
 	violCount                                      int64
 	Extra                                          map[string]int64
+	beat                                           int64 // heartbeat for the watchdog (see watchdog.go)
 }
 
 func NewLocal() *Local {
-	return &Local{Classes: map[string]int64{}, viols: map[string]*Violation{}, Extra: map[string]int64{}}
+	l := &Local{Classes: map[string]int64{}, viols: map[string]*Violation{}, Extra: map[string]int64{}}
+	registerBeat(&l.beat)
+	return l
 }
 
-func (l *Local) Class(c string) { l.Classes[c]++ }
+func (l *Local) Class(c string) {
+	l.Classes[c]++
+	atomic.AddInt64(&l.beat, 1)
+}
 
 // Sample keeps up to 4 samples per worker.
 func (l *Local) Sample(s interface{}) {
@@ -513,6 +520,7 @@ func Main(args []string) int {
 		return 2
 	}
 	r := NewRun(c.ID, tier)
+	startWatchdog()
 	c.Run(r)
 	return r.Finish()
 }
